@@ -38,7 +38,8 @@ CONSTANTS
                 \* {} is the ES5 grammar.  "nobf": 12.4 look-ahead; "noin":
                 \* NoIn in for-initialisers; "lhs": left operand of = / ++;
                 \* "nolt": [no LineTerminator here]; "emptyasi": ASI may
-                \* produce an empty statement; "forasi": ASI in a for header
+                \* produce an empty statement; "forasi": ASI in a for header;
+                \* "anyasi": a semicolon is inserted before any token
 
 (****************************** vocabulary ******************************)
 BinOpsAt(l) ==
@@ -426,8 +427,9 @@ EmitToken ==
         \* the semicolon before this token was inserted legitimately:
         \* the token is "}" or follows a line terminator, and it is an
         \* offending token (the grammar could not have continued with it)
-        /\ pend # "" => /\ (nl \/ h[2] = "}")
-                        /\ h[2] \notin Cont(pend)
+        /\ (pend # "" /\ "anyasi" \notin Relax)
+                => /\ (nl \/ h[2] = "}")
+                   /\ h[2] \notin Cont(pend)
         /\ LET f == Flush(Tail(stack), Append(out, <<"T", h[2], h[4]>>)) IN
             /\ stack' = f[1] /\ out' = f[2]
         /\ ntok' = ntok + 1 /\ need' = need - 1
